@@ -115,13 +115,18 @@ def in_gate(test, st):
 # ------------------------------------------------------------------------------------------------
 # instance generation (concrete and JSON-able)
 # ------------------------------------------------------------------------------------------------
-def gen_instance(rng, cell, tier):
+def gen_instance(rng, cell, tier, crossing=False):
+    """crossing=True: narrow range (1..2 decades) with log_F_ext in [-1,-0.5] such that tau_min > tau_max (the limits of
+    eq. 12 cross and the time constants run from large to small) - an ordinary member of the quantifier."""
     test, adm, add_c, add_l = cell
     kind = km.base_kind(test)
     thorough = tier == "thorough"
     cn = test == "cnls"
     ppd = int(rng.integers(3, 21))
     dec = float(rng.uniform(1.5, 10.0) if thorough else rng.uniform(2.0, 8.0))
+    if crossing:
+        dec = float(rng.uniform(1.0, 1.7))
+        ppd = int(rng.integers(6, 21))
     nmax_pts = 60 if cn else (160 if thorough else 110)
     N = max(min(int(round(ppd * dec)) + 1, nmax_pts), 7)
     dec = (N - 1) / ppd
@@ -146,9 +151,12 @@ def gen_instance(rng, cell, tier):
     u = rng.random()
     x = 0.0 if u < 0.1 else (1.0 if u < 0.15 else (-1.0 if u < 0.2 else float(rng.uniform(-1, 1))))
     dec = float(logf[-1] - logf[0])
-    if dec + 2 * x < 1.0:
+    if crossing:
+        # tau range of at least 0.25 decades after the crossing (log10(tau_max/tau_min) = dec + 2x <= -0.25)
+        x = float(rng.uniform(-1.0, min(-0.5, -(dec + 0.25) / 2)))
+    elif dec + 2 * x < 1.0:
         x = float((1.0 - dec) / 2 + 0.01)
-    tdec = dec + 2 * x
+    tdec = abs(dec + 2 * x)
     extra = int(add_c) + int(add_l)
     nmax = int(np.floor(GATE["perdec"][kind] * tdec + 1e-9)) + 1
     if kind == "complex":
@@ -209,13 +217,13 @@ def gen_instance(rng, cell, tier):
     with np.errstate(all="ignore"):
         Z = km.impedance(f, tau, var, adm, add_c, add_l)
     if not (np.all(np.isfinite(Z.real)) and np.all(np.isfinite(Z.imag)) and np.abs(Z).min() > 0):
-        return gen_instance(rng, cell, tier)  # exact cancellation to 0 or overflow: not a spectrum; draw again
+        return gen_instance(rng, cell, tier, crossing)  # exact cancellation to 0 or overflow: not a spectrum; draw again
     asc = bool(rng.random() < 0.5)
     ff, ZZ = (f, Z) if asc else (f[::-1], Z[::-1])
     return {
         "test": test, "adm": bool(adm), "add_c": bool(add_c), "add_l": bool(add_l), "num_RC": n, "log_F_ext": float(x),
         "f": [float(v) for v in ff], "Z": [[float(z.real), float(z.imag)] for z in ZZ], "var": [float(v) for v in var],
-        "meta": {"ppd": ppd, "lo": lo, "pat": pat, "mode": mode, "span": span, "asc": asc},
+        "meta": {"ppd": ppd, "lo": lo, "pat": pat, "mode": mode, "span": span, "asc": asc, "crossing": bool(crossing)},
     }
 
 
@@ -260,6 +268,11 @@ def check_instance(inst):
     st = km.gate_stats(f, tau, var, test, adm, add_c, add_l)
     st["artefact"] = km.placeholder_artefact(f, Zm, test, adm, add_c)
     inside = in_gate(test, st)
+    crossed = bool(tau[0] > tau[-1])  # limits of eq. 12 cross: the documented tau_k descend
+    # results are read back sorted by tau (km.circuit_variables); bring the generating side into the same order
+    perm = np.argsort(tau)
+    tau = tau[perm]
+    var = np.concatenate([var[:1], var[1 : 1 + n][perm], var[1 + n :]])
     tags = []
     if np.any(var == 0.0):
         tags.append("absent-element")
@@ -273,7 +286,7 @@ def check_instance(inst):
                      "msg": f"[{cname} N={len(f)} f={f.min():.3g}..{f.max():.3g} Hz num_RC={n} log_F_ext={x:.3g}] {msg}",
                      "witness": {"cell": cname, "gate": {k: float(v) for k, v in st.items()}, "inside_gate": bool(inside), "replay_case": replay}})
 
-    out = {"viol": viol, "inside": inside, "obs": None, "stats": st, "cell": cname, "finding_cell": None,
+    out = {"viol": viol, "inside": inside, "obs": None, "stats": st, "cell": cname, "finding_cell": None, "crossed": crossed,
            "tags": tags + (["placeholder-constants"] if placeholder else [])}
     try:
         res = observe(inst)
